@@ -206,8 +206,8 @@ def gen_nest(rng, count, tag, panic=0.02, combs=None, local=False):
         comb = rng.choice(combs or (NESTS_FUT + NESTS_STR))
         n = rng.randint(2, 6)
         cont = "nest"
-        if rng.random() < 0.3:       # the array impls of the crate: outer [_; 2] over inner [_; n/2] (the same slice algorithms: the same model)
-            n = rng.choice([2, 4, 4, 6]); cont = "nesta"
+        if rng.random() < 0.4:       # the array impls of the crate: outer [_; 2] over inner [_; n/2] (the same slice algorithms: the same model)
+            n = rng.choice([2, 4, 4, 6]); cont = rng.choice(["nesta", "nesta", "nestt"])       # nestt: the tuple impls (2-tuple over n/2-tuples; for join the tuple algorithm on both levels)
         if comb in NESTS_FUT:
             scs = [fscript(rng, n, i, False, panic) for i in range(n)]
         else:
